@@ -51,8 +51,40 @@ Check (C14_terminates :
 
 Check (C14_completes_when_items_fit :
   forall (n : nat) (c : cfg) (its : list item) (stats : list atom) (evs : list ev),
-  cfg_ok c = true -> ev_sorted evs ->
+  cfg_ok c = true -> ev_sorted evs -> accept c = None ->
   (length evs < n)%nat -> all_fit c its stats evs = true -> fst (respond n c its stats evs) = ODone).
+
+Check (C14_aborted_never_claims_completeness :
+  forall (n : nat) (c : cfg) (its : list item) (stats : list atom) (evs : list ev),
+  cfg_ok c = true -> ev_sorted evs ->
+  forall chunks : list (list token),
+  respond n c its stats evs = (OAbort, chunks) ->
+  exists vs, map parse_chunk chunks = map Some vs /\
+             forallb (fun v => v_more v && negb (v_supp v)) vs = true).
+
+Check (C14_aborted_round :
+  forall (n : nat) (c : cfg) (sb : sub) (hi : N) (stats : list atom) (evs : list ev),
+  cfg_ok c = true -> ev_sorted evs ->
+  forall (how : silence) (x : option sub) (ch : list (list token)),
+  report_round n c how sb hi stats evs = (x, OAbort, ch) ->
+  x = match how with Silent => Some sb | Refuses => None end /\
+  exists vs, map parse_chunk ch = map Some vs /\
+             forallb (fun v => v_more v && negb (v_supp v)) vs = true).
+
+Check (C14_next_round_starts_clean :
+  forall (n : nat) (c : cfg) (sb : sub) (hi : N) (stats : list atom) (evs : list ev),
+  cfg_ok c = true -> ev_sorted evs ->
+  forall how : silence,
+  accept c = None -> has_attrs c = true -> has_events c = true ->
+  (length evs < n)%nat -> all_fit c (sb_pending sb) stats evs = true ->
+  nothing_to_report (with_window c (sb_seen sb) hi) (sb_pending sb) stats evs = false ->
+  exists ch vs gs,
+    report_round n c how sb hi stats evs = (Some (mkSub hi []), ODone, ch) /\
+    map parse_chunk ch = map Some vs /\
+    Forall2 sent_as (sb_pending sb) gs /\ all_attr_atoms vs = concat gs /\
+    all_event_atoms vs = stats ++ map ev_atom
+      (filter (fun e => (sb_seen sb <? ev_num e) && (ev_num e <=? hi) && ev_sel e) evs) /\
+    only_last_ends vs = true).
 
 Check (C14_monitor_accepts_model :
   forall (n : nat) (c : cfg) (its : list item) (stats : list atom) (evs : list ev),
